@@ -24,6 +24,7 @@ type consumerPlan struct {
 }
 
 type relayScenario struct {
+	PushDead int // extra relay-push targets that refuse connections
 	Conf      srv.Conf
 	Shape     gen.Shape
 	More      []gen.Shape // further incarnations of the same stream name, published one after the other
@@ -159,6 +160,10 @@ func runRelay(c *fw.Ctx, sc relayScenario, rng *rand.Rand) (res relayResult) {
 		}
 		defer stub.Close()
 		conf.PushAddrs = []string{stub.Addr}
+		// further targets that are down (nothing listens): they must not affect the healthy one
+		for k := 0; k < sc.PushDead; k++ {
+			conf.PushAddrs = append(conf.PushAddrs, fmt.Sprintf("127.0.0.1:%d", srv.FreePort()))
+		}
 	}
 	s, err := srv.Start(conf, root)
 	if err != nil {
